@@ -236,13 +236,14 @@ def run(ctx):
 
     for h in range(120 if ctx.thorough else 25):
         impl = world.ImplWorld(ctx.pool)
-        impl.new(False)
-        impl.new(False)
+        htyped = h % 3 == 2          # every third history is on typed trees (siblings of several kinds, removals among them)
+        impl.new(htyped)
+        impl.new(htyped)
         impl._bij = world.Bij()
         log = []
         for i in range(ctx.rng.randrange(5, 40 if ctx.thorough else 25)):
             ti = 0 if ctx.rng.random() < 0.8 else 1
-            op = H.random_op(ctx.rng, impl, ti, labels=H.STR + [18, 19], malformed=0.05,
+            op = H.random_op(ctx.rng, impl, ti, labels=H.STR + [18, 19], malformed=0.05, typed=htyped,
                              ops=["add", "add", "add", "shortcut", "addnode", "addtree", "move", "move", "remove", "remove", "sort", "setdata"])
             if op["op"] == "w.remove":
                 op["keep"] = ctx.rng.random() < 0.6
@@ -251,7 +252,7 @@ def run(ctx):
             if i % 7 == 6:
                 # query - mutate - query: the relationship queries are also asked in the middle of the history
                 try:
-                    check_tree(ctx, out, {"history": list(log), "tree": 0, "checked_every": 7}, "hist", tree=impl.trees[0])
+                    check_tree(ctx, out, {"history": list(log), "tree": 0, "checked_every": 7, "typed": htyped}, "hist", tree=impl.trees[0], typed=htyped)
                 except core.MachineryError:
                     raise
                 except Exception as e:  # noqa
@@ -260,7 +261,7 @@ def run(ctx):
             t = impl.trees[ti]
             before = len(out.oracle_failures)
             try:
-                check_tree(ctx, out, {"history": log, "tree": ti, "checked_every": 7}, "hist", tree=t)
+                check_tree(ctx, out, {"history": log, "tree": ti, "checked_every": 7, "typed": htyped}, "hist", tree=t, typed=htyped)
             except Exception as e:  # noqa  -- an accessor raised on a reachable tree
                 out.fail(dict(kind="history", spec={"history": log, "tree": ti}), f"relationship queries raised {type(e).__name__}: {e} on a tree reached by {len(log)} operations")
         out.dist["history_tree"] += 1
@@ -285,14 +286,14 @@ def replay(ctx, rp):
         import world
 
         impl = world.ImplWorld(ctx.pool)
-        impl.new(False)
-        impl.new(False)
+        impl.new(bool(spec.get("typed")))
+        impl.new(bool(spec.get("typed")))
         impl._bij = world.Bij()
         for i, op in enumerate(spec["history"]):
             impl.apply(dict(op))
             if spec.get("checked_every") and i % spec["checked_every"] == spec["checked_every"] - 1 and i + 1 < len(spec["history"]):
-                check_tree(ctx, core.Outcome(), spec, "replay-warm", tree=impl.trees[0])
-        check_tree(ctx, out, spec, "replay", tree=impl.trees[spec["tree"]])
+                check_tree(ctx, core.Outcome(), spec, "replay-warm", tree=impl.trees[0], typed=bool(spec.get("typed")))
+        check_tree(ctx, out, spec, "replay", tree=impl.trees[spec["tree"]], typed=bool(spec.get("typed")))
     else:
         check_tree(ctx, out, tuplify_d(spec), "replay", typed=bool(rp["case"].get("typed")))
     return dict(failures=out.oracle_failures[:5], disagreements=out.disagreements[:5], property_holds=not out.oracle_failures)
